@@ -434,23 +434,36 @@ def restate(row, f):
 
 
 def c15_variant(rng, h):
-    """-> (h2, info) with one inserted split in one security."""
+    """-> (h2, info) with one or two inserted splits in one security (each restating everything after it)."""
     rows = sorted(h["rows"], key=lambda r: r["sd"])    # stable: file order within a day
     secs = sorted({r["sec"] for r in rows})
     sec = rng.choice(secs)
     idxs = [i for i, r in enumerate(rows) if r["sec"] == sec]
-    p = rng.choice(idxs + [idxs[-1] + 1]) if rng.random() < 0.9 else idxs[0]
-    name, f = rng.choice(FACTORS)
-    if p < len(rows):
-        sd = rows[p]["sd"]
-        if rng.random() < 0.4 and p > 0:
-            # a day strictly between two events, when there is one
-            d0 = datetime.date.fromisoformat(rows[p - 1]["sd"])
-            d1 = datetime.date.fromisoformat(rows[p]["sd"])
-            if (d1 - d0).days >= 2:
-                sd = (d0 + datetime.timedelta(days=rng.randint(1, (d1 - d0).days - 1))).isoformat()
-    else:
-        sd = (datetime.date.fromisoformat(rows[-1]["sd"]) + datetime.timedelta(days=rng.choice([1, 10, 29, 30, 31, 40]))).isoformat()
+
+    def pick():
+        p = rng.choice(idxs + [idxs[-1] + 1]) if rng.random() < 0.9 else idxs[0]
+        name, f = rng.choice(FACTORS)
+        if p < len(rows):
+            sd = rows[p]["sd"]
+            if rng.random() < 0.4 and p > 0:
+                # a day strictly between two events, when there is one
+                d0 = datetime.date.fromisoformat(rows[p - 1]["sd"])
+                d1 = datetime.date.fromisoformat(rows[p]["sd"])
+                if (d1 - d0).days >= 2:
+                    sd = (d0 + datetime.timedelta(days=rng.randint(1, (d1 - d0).days - 1))).isoformat()
+        else:
+            sd = (datetime.date.fromisoformat(rows[-1]["sd"]) + datetime.timedelta(days=rng.choice([1, 10, 29, 30, 31, 40]))).isoformat()
+        return {"p": p, "sd": sd, "name": name, "f": f}
+    splits = [pick()]
+    if rng.random() < 0.35:
+        s2 = pick()
+        # a second split on another day (two splits of one security within a day of each other are refused at load
+        # when one is for all affiliates and the other is not; both are given the same way here, but keep them apart)
+        if abs((datetime.date.fromisoformat(s2["sd"]) - datetime.date.fromisoformat(splits[0]["sd"])).days) >= 2 and s2["p"] != splits[0]["p"]:
+            splits.append(s2)
+            splits.sort(key=lambda x: (x["p"], x["sd"]))
+            if splits[0]["sd"] > splits[1]["sd"]:
+                splits = splits[:1]
     per_af = rng.random() < 0.5
     afs = sorted({ref.af_norm(r.get("af")) for r in rows if r["sec"] == sec} | ({"default"} if sec in h.get("init", {}) else set()))
     spell = {}
@@ -458,21 +471,28 @@ def c15_variant(rng, h):
         if r["sec"] == sec:
             spell.setdefault(ref.af_norm(r.get("af")), r.get("af") or "Default")
     spell.setdefault("default", "Default")
-    if per_af:
-        order = list(afs)
-        rng.shuffle(order)
-        srows = [mkrow(sec, sd, "Split", spell[a], split=name) for a in order]
-    else:
-        srows = [mkrow(sec, sd, "Split", "", split=name)]
+
+    def srows(sp):
+        if per_af:
+            order = list(afs)
+            rng.shuffle(order)
+            return [mkrow(sec, sp["sd"], "Split", spell[a], split=sp["name"]) for a in order]
+        return [mkrow(sec, sp["sd"], "Split", "", split=sp["name"])]
     out = []
+    k = Fraction(1)
     for i, r in enumerate(rows):
-        if i == p:
-            out.extend(srows)
-        out.append(restate(r, f) if (i >= p and r["sec"] == sec) else dict(r))
-    if p >= len(rows):
-        out.extend(srows)
-    return {"rows": out, "init": h.get("init", {}), "features": []}, {"sec": sec, "p": p, "f": f, "sd": sd, "per_af": per_af,
-                                                                      "name": name, "base_sorted": rows}
+        for sp in splits:
+            if sp["p"] == i:
+                out.extend(srows(sp))
+                k *= sp["f"]
+        out.append(restate(r, k) if (k != 1 and r["sec"] == sec) else dict(r))
+    for sp in splits:
+        if sp["p"] >= len(rows):
+            out.extend(srows(sp))
+    first = splits[0]
+    return {"rows": out, "init": h.get("init", {}), "features": []}, {"sec": sec, "p": first["p"], "f": first["f"], "sd": first["sd"], "per_af": per_af,
+                                                                      "name": "+".join(sp["name"] for sp in splits), "base_sorted": rows,
+                                                                      "splits": [[sp["sd"], str(sp["f"])] for sp in splits]}
 
 
 def c15_compare(ra, rb, info):
@@ -481,7 +501,9 @@ def c15_compare(ra, rb, info):
         return {"what": "acceptance differs", "ok": [ra.get("ok"), rb.get("ok")], "err": [ra.get("err"), rb.get("err")]}
     if not ra.get("ok"):
         return None
-    sec, f, sd = info["sec"], info["f"], info["sd"]
+    sec = info["sec"]
+    splits = [(sd_, Fraction(f_)) for sd_, f_ in info.get("splits") or [[info["sd"], str(info["f"])]]]
+    sds = [sd_ for sd_, _ in splits]
     for s2 in ra["tables"]:
         if s2 != sec:
             d = first_diff(table_sig(ra["tables"][s2]), table_sig(rb["tables"][s2]))
@@ -489,7 +511,7 @@ def c15_compare(ra, rb, info):
                 return {"what": "another security changed", "sec": s2, "diff": d}
     ta, tb = ra["tables"][sec], rb["tables"][sec]
     col = {h: i for i, h in enumerate(ta["header"])}
-    rows_b = [r for r in tb["rows"] if not (r[col["TX"]] == "Split" and r[col["Settl. Date"]] == sd)]
+    rows_b = [r for r in tb["rows"] if not (r[col["TX"]] == "Split" and r[col["Settl. Date"]] in sds)]
     n_split = len(tb["rows"]) - len(rows_b)
     if bool(ta["errors"]) != bool(tb["errors"]):
         return {"what": "acceptance of the security differs", "errors": [ta["errors"], tb["errors"]]}
@@ -500,11 +522,16 @@ def c15_compare(ra, rb, info):
     after = False
     # walk tb in order to know which rows come after the split
     flags = []
+    seen = set()
+    kk = Fraction(1)
     for r in tb["rows"]:
-        if r[col["TX"]] == "Split" and r[col["Settl. Date"]] == sd:
-            after = True
+        if r[col["TX"]] == "Split" and r[col["Settl. Date"]] in sds:
+            j_ = sds.index(r[col["Settl. Date"]])
+            if j_ not in seen:          # one split may show as one row per affiliate
+                seen.add(j_)
+                kk *= splits[j_][1]
             continue
-        flags.append(after)
+        flags.append(kk)
     eps = ref.EPS
     for i, (x, y) in enumerate(zip(ta["rows"], rows_b)):
         g1, s1 = ref.parse_gain_cell(x[col["Cap. Gain"]])
@@ -521,7 +548,7 @@ def c15_compare(ra, rb, info):
                 return {"what": "total cost base changed", "col": cname, "row": i, "base": str(v1), "split": str(v2)}
         o1, al1, _ = ref.parse_balance_cell(x[col["Share Balance"]])
         o2, al2, _ = ref.parse_balance_cell(y[col["Share Balance"]])
-        k = f if flags[i] else Fraction(1)
+        k = flags[i]
         if o1 is not None and o2 is not None and not ref.close(o1 * k, o2):
             return {"what": "share balance does not scale by the ratio", "row": i, "base": str(o1), "split": str(o2), "scale": str(k)}
         p1, p2 = ref.money(x[col["New ACB/Share"]]), ref.money(y[col["New ACB/Share"]])
@@ -533,10 +560,9 @@ def c15_compare(ra, rb, info):
 def c15_nontrivial(h, info):
     """inserted split inside the +-30 day window of a loss sale (approximated from prices is not
     possible here, so: of any sale), or an affiliate of the security holds nothing at the split."""
-    sd = datetime.date.fromisoformat(info["sd"])
     sec = info["sec"]
-    near = any(r["sec"] == sec and r["action"] == "Sell" and abs((datetime.date.fromisoformat(r["sd"]) - sd).days) <= 30
-               for r in h["rows"])
+    near = any(r["sec"] == sec and r["action"] == "Sell" and abs((datetime.date.fromisoformat(r["sd"]) - datetime.date.fromisoformat(sd_)).days) <= 30
+               for r in h["rows"] for sd_, _ in info["splits"])
     held = {}
     for r in info["base_sorted"][:info["p"]]:
         if r["sec"] != sec:
@@ -585,7 +611,8 @@ def c15_worker(shard):
                 j["nontrivial"] += 1
             if d is not None:
                 j["findings"].append({"what": d["what"], "diff": d, "variant": h2,
-                                      "info": {"sec": info["sec"], "sd": info["sd"], "ratio": info["name"], "per_af": info["per_af"], "p": info["p"], "f": str(info["f"])}})
+                                      "info": {"sec": info["sec"], "sd": info["sd"], "ratio": info["name"], "per_af": info["per_af"], "p": info["p"], "f": str(info["f"]),
+                                               "splits": info["splits"]}})
                 j["history"] = h
                 break
         if not j["findings"] and len(out) < 1 and vs:
@@ -842,6 +869,9 @@ def run_c16(tier):
     for i in range(n):
         rng = common.rng_for(seed, "C16", i)
         hh = gen.HistoryGen(rng, c16_profile(rng)).gen()
+        if hh["rows"] and rng.random() < 0.25:
+            # security names are matched as written: lower- and mixed-case names are names like any other
+            hh = rename_secs(hh, rng.choice([["brk.b", "vfv.to", "xeqt"], ["Foo", "bAR", "Qqq.To"], ["abc", "ABC2", "Abc3"]]))
         if hh["rows"]:
             pop.append((common.case_id(seed, "C16", i), "input #%d" % i, hh))
     nsh = common.NPROC * 4
